@@ -1,13 +1,13 @@
 SPECIFICATION Spec
 CONSTANTS
-  N = 2
+  N = 3
   Policies = {"silent"}
-  Layouts = {"packed", "sizefield", "strlen"}
-  Chars <- Chars012
-  Lits <- LitsQ
-  PosDom <- Pos2q
-  SubDom <- SubQ
-  OtherVals <- OtherQ
+  Layouts = {"packed", "strlen"}
+  Chars <- Chars12
+  Lits <- LitsN3q
+  PosDom <- Pos3q
+  SubDom <- SubN3q
+  OtherVals <- OtherN3q
   Junk = {9}
   AliasMode = "repaired"
 CONSTRAINT OtherBound
